@@ -95,13 +95,27 @@ func driveC16(c *Ctx) {
 	for i := c.W(4); i > 0; i-- {
 		tsPick = append(tsPick, pick(c, tsNames))
 	}
+	// Keys may also be pointer types (*T, **T) next to or instead of T: a legal map whose pointer
+	// entries the documentation gives no meaning to; whatever they do, they do it on every call.
+	ptrKeys := make([]int, len(tsPick))
+	for i := range ptrKeys {
+		ptrKeys[i] = []int{0, 0, 0, 0, 1, 2, 3}[c.W(7)] // 0 T only; 1 T and *T; 2 *T only; 3 T, *T and **T
+	}
 	mkOpts := func() *jsonschema.ForOptions {
 		o := &jsonschema.ForOptions{IgnoreInvalidTypes: ignore}
 		if len(tsPick) > 0 {
 			o.TypeSchemas = map[reflect.Type]*jsonschema.Schema{}
 			for k, n := range tsPick {
 				rt := TSTypes[n]
-				o.TypeSchemas[rt] = overrideSchema(n, k)
+				if ptrKeys[k] != 2 {
+					o.TypeSchemas[rt] = overrideSchema(n, k)
+				}
+				if ptrKeys[k] >= 1 {
+					o.TypeSchemas[reflect.PointerTo(rt)] = overrideSchema(n, k+7)
+				}
+				if ptrKeys[k] == 3 {
+					o.TypeSchemas[reflect.PointerTo(reflect.PointerTo(rt))] = overrideSchema(n, k+13)
+				}
 			}
 		}
 		return o
@@ -113,8 +127,8 @@ func driveC16(c *Ctx) {
 		steps = append(steps, c16step{Kind: []int{0, 0, 1, 2, 2, 3}[c.W(6)], A: c.W(64), B: c.W(64)})
 	}
 	env := os.Getenv("JSONSCHEMAGODEBUG")
-	c.In("type %s ignore=%v typeschemas=%v steps=%v env=%q", ct.Name, ignore, tsPick, steps, env)
-	c.Distinct("%s|%v|%v|%v|%s", ct.Name, ignore, tsPick, steps, env)
+	c.In("type %s ignore=%v typeschemas=%v pointer-keys=%v steps=%v env=%q", ct.Name, ignore, tsPick, ptrKeys, steps, env)
+	c.Distinct("%s|%v|%v|%v|%v|%s", ct.Name, ignore, tsPick, ptrKeys, steps, env)
 	policy := simrt.Choose(simrt.SOrder, 0, simrt.NumOrderPolicies)
 	simrt.SetOrderPolicy(policy)
 
